@@ -131,23 +131,10 @@ theorem C14_distance (wf : PathWF o rank) {root : Term} {leaves : List Term}
   · intro hd; rw [hd.unique hs']; exact hs
   · intro hd; rw [hd.unique hs]; exact hs'
 
-/-
-Full statement of the record clause (not proved in full):
-
-  theorem C14_records : o.subOntology root leaves = .ok o' → ∀ k r',
-      getR (o'.recs k) r'.id = some r' ↔ ∃ r, getR (o.recs k) r'.id = some r ∧ r'.name = r.name ∧
-        (∃ d ∈ r.hpos, (o'.get d).isSome ∧ ¬ o.isModifier d) ∧ ∀ t, t ∈ r'.hpos ↔ t ∈ r.hpos ∧ (o'.get t).isSome
-
-Proved here: the decision the filter takes for each retained term (`phenotypeIds` = the retained
-terms that are not modifier terms, by the same test as `is_modifier`), and that a record passes the
-filter iff one of its direct terms is such a term.  What is missing: the bookkeeping of the
-`annotate_*` calls on the record maps (that the record created for a kept record carries exactly
-`hpos ∩ retained`); it rests on the correspondence check (`dump` of the result and `oracle sub`).
--/
 /-- the fixed phenotype filter: a retained id is a phenotype id iff the source term is not a
 modifier term (`is_modifier`: the term or one of its ancestors is a modifier root); a record passes
 iff it is directly annotated to such a retained term -/
-theorem C14_records_partial (ids : List Nat) :
+theorem C14_record_filter (ids : List Nat) :
     (∀ x, x ∈ phenotypeIds o isPhenotype ids ↔ x ∈ ids ∧ o.isModifier (o.srcTerm x) = false) ∧
     (∀ r : Rec, (Group.bitand r.hpos (phenotypeIds o isPhenotype ids)).isEmpty = false ↔
       ∃ d ∈ r.hpos, d ∈ ids ∧ o.isModifier (o.srcTerm d) = false) := by
@@ -208,6 +195,51 @@ theorem C14_records_partial (ids : List Nat) :
     | nil => rw [hb] at this; cases this
     | cons _ _ => rfl
 
+/-- records (genes, OMIM diseases, ORPHA diseases; `k` is the kind): a record of the source is
+kept iff it is directly annotated to at least one retained term that is not a modifier term; every
+record of the result comes from a source record with the same id and name, and is linked to
+exactly the retained subset of that record's direct terms (as a strictly ascending group).
+Hypothesis on the source: record ids are unique per kind (they are keys of a hash map). -/
+theorem C14_records (wf : PathWF o rank) {root : Term} {leaves : List Term}
+    (hl : ∀ l ∈ leaves, o.get l.id = some l) (hrecs : ∀ k, ((o.recs k).map (·.id)).Nodup) {o' : Onto}
+    (h : o.subOntology root leaves = .ok o') (k : Kind) :
+    (∀ r ∈ o.recs k, (∃ r' ∈ o'.recs k, r'.id = r.id) ↔
+      ∃ d ∈ r.hpos, (o'.get d).isSome ∧ o.isModifier (o.srcTerm d) = false) ∧
+    (∀ r' ∈ o'.recs k, ∃ r ∈ o.recs k, r'.id = r.id ∧ r'.name = r.name ∧
+      (∀ t, t ∈ r'.hpos ↔ t ∈ r.hpos ∧ (o'.get t).isSome) ∧ Group.Sorted r'.hpos) := by
+  obtain ⟨ids, f⟩ := subOntology_facts wf hl h
+  have hid : ∀ i ∈ ids, (o.srcTerm i).id = i := by
+    intro i hi
+    obtain ⟨t, ht⟩ := f.resolves i hi
+    rw [srcTerm_of_get ht]; exact Onto.get_id ht
+  have e := subOntologyOf_recs f.of f.sorted.nodup hid hrecs k
+  obtain ⟨fmem, fpass⟩ := C14_record_filter (o := o) ids
+  have hsub : ∀ x ∈ phenotypeIds o isPhenotype ids, x ∈ ids := fun x hx => ((fmem x).1 hx).1
+  constructor
+  · intro r hr
+    constructor
+    · rintro ⟨r', hr', hid'⟩
+      rw [e] at hr'
+      obtain ⟨r2, hr2, hk⟩ := List.mem_filterMap.1 hr'
+      obtain ⟨k1, _, _, k4⟩ := keepRec_some hk
+      have : r2 = r := eq_of_nodup_map_id (hrecs k) hr2 hr (k1.symm.trans hid')
+      subst this
+      obtain ⟨d, hd, hdi, hdm⟩ := (fpass r2).1 k4
+      exact ⟨d, hd, (f.mem_iff d).1 hdi, hdm⟩
+    · rintro ⟨d, hd, hdi, hdm⟩
+      have := (fpass r).2 ⟨d, hd, (f.mem_iff d).2 hdi, hdm⟩
+      obtain ⟨r', hk⟩ := keepRec_isSome hsub this
+      exact ⟨r', by rw [e]; exact List.mem_filterMap.2 ⟨r, hr, hk⟩, (keepRec_some hk).1⟩
+  · intro r' hr'
+    rw [e] at hr'
+    obtain ⟨r, hr, hk⟩ := List.mem_filterMap.1 hr'
+    obtain ⟨k1, k2, k3, _⟩ := keepRec_some hk
+    refine ⟨r, hr, k1, k2, ?_, ?_⟩
+    · intro t
+      rw [k3, Group.mem_insertAll, Group.mem_bitand, ← f.mem_iff]
+      simp
+    · rw [k3]; exact Group.sorted_insertAll _ _ Group.sorted_nil
+
 /-- The defect that was repaired (`fix: sub_ontology treats a modifier root itself as a modifier
 term`): in `modOnto` (root `1` with the modifier root `5` and the phenotype branch `118 → 200`;
 gene `7` annotated only to the modifier root `5`) with all four terms retained, the filter as
@@ -224,6 +256,8 @@ theorem C14_modifier_root_counterexample :
 /-- non-vacuity: the hypotheses hold on `modOnto` (a modifier branch, a phenotype branch, an
 obsolete term with a replacement, genes on a modifier root and on a phenotype term) -/
 example : PathWF modOnto modRank := modOnto_wf
+
+example : ∀ k, ((modOnto.recs k).map (·.id)).Nodup := by intro k; cases k <;> decide
 
 example : ∃ rt l, modOnto.get 1 = some rt ∧ modOnto.get 200 = some l ∧
     collectLeaves modOnto rt.id [l] [] = .ok [1, 118, 200] := ⟨_, _, rfl, rfl, by decide⟩
